@@ -4,6 +4,7 @@ CONSTANTS
   Num = 4
   DecodeFailAt = 0
   SourceFailAt = 0
+  EmptyBlocks = {}
   TraceFile = "trace.ndjson"
 INVARIANTS
   Ordered
